@@ -115,4 +115,41 @@ theorem atomToks_in_order : ∀ (evs : List LEvent) (n : Nat), Desc n (allBounds
     obtain ⟨ih1, ih2⟩ := atomToks_in_order evs n h
     exact ⟨by simpa [atomToks] using ih1, by simpa [atomToks] using ih2⟩
 
+/-- the ring-closure tokens likewise: bounded by `n`, and each one ends before the next one starts -/
+theorem joinToks_in_order : ∀ (evs : List LEvent) (n : Nat), Desc n (allBounds evs) →
+    (∀ p ∈ joinToks evs, p.2.2.2.1 ≤ n) ∧ (joinToks evs).Pairwise (fun p q => q.2.2.2.1 ≤ p.2.2.2.2)
+  | [], _, _ => ⟨fun p hp => by simp [joinToks] at hp, by simp [joinToks]⟩
+  | .root k a e :: evs, n, h => by
+    simp only [allBounds, List.map_cons, List.flatten_cons, LEvent.bounds, List.cons_append, List.nil_append, Desc] at h
+    obtain ⟨h1, h2, h3⟩ := h
+    obtain ⟨ih1, ih2⟩ := joinToks_in_order evs e h3
+    refine ⟨?_, by simpa [joinToks] using ih2⟩
+    intro p hp
+    simp only [joinToks] at hp
+    exact Nat.le_trans (ih1 p hp) (Nat.le_trans h2 h1)
+  | .extend b k a e :: evs, n, h => by
+    simp only [allBounds, List.map_cons, List.flatten_cons, LEvent.bounds, List.cons_append, List.nil_append, Desc] at h
+    obtain ⟨h1, h2, h3⟩ := h
+    obtain ⟨ih1, ih2⟩ := joinToks_in_order evs e h3
+    refine ⟨?_, by simpa [joinToks] using ih2⟩
+    intro p hp
+    simp only [joinToks] at hp
+    exact Nat.le_trans (ih1 p hp) (Nat.le_trans h2 h1)
+  | .join b r bc a e :: evs, n, h => by
+    simp only [allBounds, List.map_cons, List.flatten_cons, LEvent.bounds, List.cons_append, List.nil_append, Desc] at h
+    obtain ⟨h1, h2, h3, h4⟩ := h
+    obtain ⟨ih1, ih2⟩ := joinToks_in_order evs e h4
+    refine ⟨?_, ?_⟩
+    · intro p hp
+      simp only [joinToks, List.mem_cons] at hp
+      rcases hp with rfl | hp
+      · exact Nat.le_trans h2 h1
+      · exact Nat.le_trans (ih1 p hp) (Nat.le_trans h3 (Nat.le_trans h2 h1))
+    · simp only [joinToks]
+      exact List.Pairwise.cons (fun q hq => ih1 q hq) ih2
+  | .pop d :: evs, n, h => by
+    simp only [allBounds, List.map_cons, List.flatten_cons, LEvent.bounds, List.nil_append] at h
+    obtain ⟨ih1, ih2⟩ := joinToks_in_order evs n h
+    exact ⟨by simpa [joinToks] using ih1, by simpa [joinToks] using ih2⟩
+
 end Purr
